@@ -1207,7 +1207,7 @@ func (sc *RevScenario) execInBubble(obs *RevObs, altSeed uint32, onlyWorld int, 
 			cctx, ccancel := context.WithCancel(baseCtx)
 			perCaller[ck] = ccancel
 			callCtx[ck] = cctx
-		} else {
+		} else if _, ok := callCtx[ck]; !ok {
 			callCtx[ck] = baseCtx
 		}
 	}
@@ -1332,7 +1332,7 @@ func (sc *RevScenario) execInBubble(obs *RevObs, altSeed uint32, onlyWorld int, 
 // entry points that take no context cannot carry one.
 func (w *World) callerKeyOf(rep int) int {
 	if w.Entry == EValidateContext {
-		return w.ID*64 + rep
+		return w.ID*64 + rep + 1 // 0 is reserved for the entry points that carry no context
 	}
 	return 0
 }
